@@ -61,9 +61,10 @@ type mBridge struct {
 	Challenger     string
 	Period         time.Duration
 	NextSeq        uint64
-	Outputs        []*mOutput // indices 1..len
-	Deleted        []*mOutput // outputs that were deleted (claims against them must fail)
-	Pool           []wd       // withdrawal tuples ever committed or invented for this bridge
+	Outputs        []*mOutput             // indices 1..len
+	Deleted        []*mOutput             // outputs that were deleted (claims against them must fail)
+	Pool           []wd                   // withdrawal tuples ever committed or invented for this bridge
+	LastBatch      *ophosttypes.BatchInfo // the batch info of the last accepted update
 	NextWdSeq      uint64
 	Paid           map[string]bool               // tuple key -> paid
 	Ledger         map[string]math.Int           // denom -> deposits - claims + direct sends
@@ -392,6 +393,9 @@ func (w *l1World) newTuple(rt *rapid.T, b *mBridge) wd {
 	t := wd{Bridge: b.ID, Seq: b.NextWdSeq, From: "l2user" + fmt.Sprint(rapid.IntRange(0, 3).Draw(rt, "wfrom")),
 		To: w.user(rt, "wto").Str, Denom: w.denoms[rapid.IntRange(0, len(w.denoms)-1).Draw(rt, "wdenom")],
 		Amount: uint64(rapid.IntRange(1, 3_000_000).Draw(rt, "wamt"))}
+	if rapid.IntRange(0, 19).Draw(rt, "toOwnEscrow") == 0 {
+		t.To = sdk.AccAddress(escrowAddr(b.ID)).String() // a withdrawal addressed to the bridge's own escrow account
+	}
 	// mostly withdraw what the escrow can pay (an L2 can only burn what was deposited)
 	if rapid.IntRange(0, 9).Draw(rt, "funded") < 8 {
 		for _, d := range w.denoms {
@@ -709,6 +713,12 @@ func (w *l1World) opClaim(rt *rapid.T) *l1Step {
 		if tb, ok := w.bridges[t.Bridge]; ok {
 			tb.Paid[t.key()] = true
 			tb.addLedger(t.Denom, math.NewIntFromUint64(t.Amount).Neg())
+			// a payout to an address that is itself an escrow (the bridge's own or another bridge's) arrives there
+			for _, id := range w.ids {
+				if toAddr.Equals(sdk.AccAddress(escrowAddr(id))) {
+					w.bridges[id].addLedger(t.Denom, math.NewIntFromUint64(t.Amount))
+				}
+			}
 		}
 	}
 	w.logf("claim(bridge=%d index=%d seq=%d %d%s to=%s kind=%s live=%v) -> err=%v", t.Bridge, index, t.Seq, t.Amount, t.Denom, short(t.To), variant, live, st.Res.Err)
@@ -840,7 +850,11 @@ func (w *l1World) opRole(rt *rapid.T) *l1Step {
 	case "batch":
 		// the submitter is whatever names the account on the data-availability chain: only "not empty" is required
 		submitter := rapid.SampledFrom([]string{nu.Str, nu.Str, "batch-submitter-01", "celestia1qqqsyqcyq5rqwzqfpg9scrgwpugpzysn3xzs4l", strings.ToUpper(nu.Str), "提出者"}).Draw(rt, "submitter")
-		msg = ophosttypes.NewMsgUpdateBatchInfo(signer, b.ID, ophosttypes.BatchInfo{Submitter: submitter, ChainType: ophosttypes.BatchInfo_ChainType(rapid.IntRange(1, 2).Draw(rt, "chain"))})
+		bi := ophosttypes.BatchInfo{Submitter: submitter, ChainType: ophosttypes.BatchInfo_ChainType(rapid.IntRange(1, 2).Draw(rt, "chain"))}
+		if b.LastBatch != nil && rapid.IntRange(0, 3).Draw(rt, "retryBatch") == 0 {
+			bi = *b.LastBatch // the same update once more (a retried transaction): the history gets a second, equal entry
+		}
+		msg = ophosttypes.NewMsgUpdateBatchInfo(signer, b.ID, bi)
 	case "metadata":
 		msg = ophosttypes.NewMsgUpdateMetadata(signer, b.ID, drawMetadataBytes(rt))
 	case "oracle":
@@ -860,6 +874,9 @@ func (w *l1World) opRole(rt *rapid.T) *l1Step {
 				b.FormerChal = append(b.FormerChal, b.Challenger)
 			}
 			b.Challenger = nu.Str
+		case "batch":
+			last := msg.(*ophosttypes.MsgUpdateBatchInfo).NewBatchInfo
+			b.LastBatch = &last
 		}
 	}
 	w.logf("role(%s bridge=%d by=%s new=%s) -> err=%v", kind, b.ID, short(signer), short(nu.Str), st.Res.Err)
